@@ -5,7 +5,7 @@
 PROP=$1; NAME=$2; TIER=${3:-quick}; CHECK=${4:-$PROP}
 V=$(cd "$(dirname "$0")/.." && pwd)
 SRC=/tmp/seed_$PROP/_seed/$NAME
-[ -d "$SRC" ] || SRC=$(ls -d /tmp/seed[2345]_*/_seed/$PROP-$NAME 2>/dev/null | head -1)     # second round
+[ -d "$SRC" ] || SRC=$(ls -d /tmp/seed[23456]_*/_seed/$PROP-$NAME 2>/dev/null | head -1)     # second round
 [ -n "$SRC" ] && [ -d "$SRC" ] || SRC=$V/seeded/$PROP-$NAME     # re-evaluation of a seed already filed
 WT=$(mktemp -d /tmp/vfseed.XXXXXX)
 git -C /repo worktree add -q --detach "$WT" HEAD
